@@ -474,6 +474,7 @@ func c08(c *Ctx) {
 	}
 	c08QueueTie(c, qbase)
 	c08RemnantFamily(c, qbase)
+	c08RewindTie(c, qbase)
 
 	// ---------- (b) direct oracles on the real store ----------
 	c08Oracles(c, base)
